@@ -27,6 +27,20 @@ pub static BACKGROUND: Scenario = Scenario {
 
 const MS: u64 = 1_000_000;
 
+/// Book-keeping stand-in for an address that cannot be resolved (a string without a port): an
+/// attempt to it fails at once and never reaches the fabric.
+fn bad_addr() -> SocketAddr {
+    addr(250)
+}
+
+fn to_address(a: &SocketAddr) -> anemo::types::Address {
+    if *a == bad_addr() {
+        anemo::types::Address::from("10.77.0.250")
+    } else {
+        (*a).into()
+    }
+}
+
 #[derive(Clone, Debug)]
 struct Known {
     affinity: PeerAffinity,
@@ -117,17 +131,20 @@ fn run(input: RunInput) -> ScenFuture {
                         _ => PeerAffinity::Never,
                     };
                     let mut addrs: Vec<SocketAddr> = Vec::new();
-                    match r.gen_range(0..6) {
+                    match r.gen_range(0..8) {
                         0 => {}
                         1 | 2 => addrs.push(targets[k].addr),
                         3 => addrs.extend([dead(k, 0), targets[k].addr]),
                         4 => addrs.extend([targets[k].addr, dead(k, 0), dead(k, 1)]),
+                        5 => addrs.extend([bad_addr(), targets[k].addr]),
+                        6 => addrs.extend([dead(k, 0), bad_addr(), targets[k].addr]),
                         _ => addrs.extend([dead(k, 0), dead(k, 1)]),
                     }
                     if addrs.iter().any(|a| *a != targets[k].addr) {
                         had_failure_history[k] = true;
                     }
-                    n.net.known_peers().insert(PeerInfo { peer_id: ids[k], affinity, address: addrs.iter().map(|a| (*a).into()).collect() });
+                    if addrs.contains(&bad_addr()) { w.probe("list-with-unresolvable-address"); }
+                    n.net.known_peers().insert(PeerInfo { peer_id: ids[k], affinity, address: addrs.iter().map(to_address).collect() });
                     desc = format!("insert t{k} {affinity:?} {} addrs ({} dead)", addrs.len(), addrs.iter().filter(|a| **a != targets[k].addr).count());
                     known_hist.push((now, k, Some(Known { affinity, addrs })));
                 }
@@ -177,6 +194,7 @@ fn run(input: RunInput) -> ScenFuture {
             blocked_hist.push((t_final, k, false));
         }
         let mut final_high = Vec::new();
+        let mut max_list = 1u64;
         {
             // current table
             let mut cur: BTreeMap<usize, Known> = BTreeMap::new();
@@ -192,8 +210,15 @@ fn run(input: RunInput) -> ScenFuture {
             }
             for (k, e) in cur {
                 if matches!(e.affinity, PeerAffinity::High) && !e.addrs.is_empty() {
-                    n.net.known_peers().insert(PeerInfo { peer_id: ids[k], affinity: PeerAffinity::High, address: vec![targets[k].addr.into()] });
-                    known_hist.push((t_final, k, Some(Known { affinity: PeerAffinity::High, addrs: vec![targets[k].addr] })));
+                    // the address list stays as it is (dead and unresolvable entries included): the
+                    // rotation must get past them; the live address is appended if it is missing
+                    let mut addrs = e.addrs.clone();
+                    if !addrs.contains(&targets[k].addr) {
+                        addrs.push(targets[k].addr);
+                        n.net.known_peers().insert(PeerInfo { peer_id: ids[k], affinity: PeerAffinity::High, address: addrs.iter().map(to_address).collect() });
+                        known_hist.push((t_final, k, Some(Known { affinity: PeerAffinity::High, addrs: addrs.clone() })));
+                    }
+                    max_list = max_list.max(addrs.len() as u64);
                     final_high.push(k);
                 }
             }
@@ -201,13 +226,15 @@ fn run(input: RunInput) -> ScenFuture {
         // bound: the largest backoff that can be pending + connect timeout of a dial in flight +
         // enough ticks to get through the cap + handshake time
         let worst_k = 64u64;
-        let final_wait = backoff_ns(worst_k, step_ms * MS, max_ms * MS) + ct_ms * MS + (2 + final_high.len() as u64 / cap as u64 + 1) * period + 2_000 * MS;
+        // (one full rotation through the longest list: every entry may cost a connect timeout, a
+        // backoff and the ticks to notice and to retry)
+        let final_wait = max_list * (backoff_ns(worst_k, step_ms * MS, max_ms * MS) + ct_ms * MS + 2 * period) + (2 + final_high.len() as u64 / cap as u64 + 1) * period + 2_000 * MS;
         tokio::time::sleep(Duration::from_nanos(final_wait)).await;
         let t_end = w.now_ns();
         let listed = n.net.peers();
         for k in &final_high {
             if !listed.contains(&ids[*k]) {
-                w.violate("reachable-high-peer-not-connected", "final-phase", format!("t{k} is a known High-affinity peer with a live address and has been reachable for {} ms (max backoff {max_ms} ms, interval {} ms, connect timeout {ct_ms} ms) but is not connected", (t_end - t_final) / MS, interval_ms + jitter_ms));
+                w.violate("reachable-high-peer-not-connected", "final-phase", format!("t{k} is a known High-affinity peer whose address list contains a live address and has been reachable for {} ms (max backoff {max_ms} ms, interval {} ms, connect timeout {ct_ms} ms) but is not connected", (t_end - t_final) / MS, interval_ms + jitter_ms));
             }
         }
         // ---- safety oracle over the attempts observed on the fabric ----
@@ -250,6 +277,8 @@ fn run(input: RunInput) -> ScenFuture {
         let mut unresolved_until: Vec<u64> = vec![0; n_targets];
         let mut per_tick: BTreeMap<u64, u64> = BTreeMap::new();
         let mut fails_hist: Vec<Vec<(u64, Option<u64>)>> = vec![vec![(0, Some(0))]; n_targets];
+        // instant at which the failure count of a peer was last certain (start, or a noticed success)
+        let mut certain_since: Vec<u64> = vec![0; n_targets];
         // attempts of the dialer (background or explicit) that are certain to stay unresolved until
         // their connect timeout: destinations that are dead, or blocked for the whole window
         let mut certain_pending: Vec<(u64, u64)> = Vec::new();
@@ -315,6 +344,29 @@ fn run(input: RunInput) -> ScenFuture {
                 w.violate("background-dial-to-connected-peer", key.clone(), format!("attempt to t{k} at {} ms while it is listed as connected", at / MS));
                 continue;
             }
+            // attempts to an unresolvable address never reach the fabric: if such an entry was in
+            // the list at any time since the count was last certain, the number of consecutive
+            // failures cannot be known from the outside
+            let mut had_bad = false;
+            let mut cur_bad = false;
+            for (t, kk, e) in &known_hist {
+                if *kk != k || *t > tick {
+                    continue;
+                }
+                if *t <= certain_since[k] {
+                    cur_bad = e.as_ref().map(|e| e.addrs.contains(&bad_addr())).unwrap_or(false);
+                    continue;
+                }
+                cur_bad = e.as_ref().map(|e| e.addrs.contains(&bad_addr())).unwrap_or(false);
+                had_bad |= cur_bad;
+            }
+            // (the entry in effect at `certain_since` counts too)
+            let in_effect_then = known_hist.iter().filter(|(t, kk, _)| *kk == k && *t <= certain_since[k]).last().map(|x| x.2.as_ref().map(|e| e.addrs.contains(&bad_addr())).unwrap_or(false)).unwrap_or(false);
+            let _ = cur_bad;
+            if had_bad || in_effect_then {
+                fails[k] = None;
+                not_before[k] = 0;
+            }
             // S4: not while an earlier attempt is unresolved, not before the backoff instant
             if tick < unresolved_until[k] {
                 w.violate("background-dial-while-previous-unresolved", key.clone(), format!("attempt to t{k} at {} ms while the attempt before it cannot have resolved before {} ms", at / MS, unresolved_until[k] / MS));
@@ -346,6 +398,7 @@ fn run(input: RunInput) -> ScenFuture {
                         unresolved_until[k] = t;
                         fails[k] = Some(0);
                         not_before[k] = 0;
+                        certain_since[k] = t;
                     }
                     _ => {
                         // e.g. the target disconnected at once or a simultaneous inbound won; unknown
@@ -409,12 +462,36 @@ fn run(input: RunInput) -> ScenFuture {
             let no_history = fails_hist[k].iter().filter(|(t, _)| *t <= tick).last().map(|x| x.1 == Some(0)).unwrap_or(false) && not_before_hist_ok(&fails_hist[k], tick);
             let (conn, amb) = connected_at(t_e + MS, &ids[k]);
             let explicit_near = explicit.iter().any(|(t, a)| *a == targets[k].addr && *t + ct_ms * MS > t_e && *t <= deadline);
-            if !stable || blocked_now || !eligible || !no_history || conn || amb || explicit_near {
+            // (an unresolvable address earlier in this peer's history leaves invisible failures behind)
+            let hidden_history = known_hist.iter().any(|(t, kk, e)| *kk == k && *t <= tick && e.as_ref().map(|e| e.addrs.contains(&bad_addr())).unwrap_or(false));
+            // ... and while any peer's list holds one, an invisible attempt may take a slot of the cap
+            let invisible_possible = (0..n_targets).any(|kk| known_at(tick, kk).map(|e| e.addrs.contains(&bad_addr())).unwrap_or(false));
+            if !stable || blocked_now || !eligible || !no_history || hidden_history || invisible_possible || conn || amb || explicit_near {
                 continue;
             }
             // the cap may legitimately postpone it: other dials started at that tick or still in flight
             let others = per_tick.get(&tick).copied().unwrap_or(0) as usize;
-            let in_flight = certain_pending.iter().filter(|(a, b)| *a < tick && tick < *b).count();
+            // attempts of the dialer that cannot have resolved by this tick: started before it, connect
+            // timeout not yet over, and the destination dead or blocked from the start up to the tick
+            let in_flight = attempts
+                .iter()
+                .filter(|(at, to)| {
+                    if !(*at < tick && tick < at + ct_ms * MS) {
+                        return false;
+                    }
+                    match owner.get(to) {
+                        None => *to != n.addr,
+                        Some(&kk) => {
+                            let live = *to == targets[kk].addr;
+                            let blocked_at_start = blocked_hist.iter().filter(|(t, k2, _)| *k2 == kk && *t <= *at).last().map(|x| x.2).unwrap_or(false);
+                            let unblocked_before_tick = blocked_hist.iter().any(|(t, k2, b)| *k2 == kk && *t > *at && *t <= tick && !*b);
+                            // (a dial to a live address is still handshaking until its NewPeer is published)
+                            let still_handshaking = live && !events.iter().any(|(t, e)| *t >= *at && *t <= tick && matches!(e, PeerEvent::NewPeer(q) if *q == ids[kk]));
+                            !live || (blocked_at_start && !unblocked_before_tick) || still_handshaking
+                        }
+                    }
+                })
+                .count();
             let dialed = attempts.iter().any(|(at, to)| *to == targets[k].addr && *at >= tick && *at <= tick + 2 * MS);
             if !dialed && others + in_flight >= cap {
                 continue;
@@ -422,7 +499,7 @@ fn run(input: RunInput) -> ScenFuture {
             liveness_checked += 1;
             let connected = events.iter().any(|(t, e)| *t > t_e && *t <= deadline && matches!(e, PeerEvent::NewPeer(q) if *q == ids[k]));
             if !connected {
-                w.violate("eligible-high-peer-not-dialed-within-one-interval", why, format!("t{k} became eligible at {} ms ({why}); the next tick is at {} ms; {} ms after it (handshake allowance) it is still not connected (dialed at that tick: {dialed})", t_e / MS, tick / MS, handshake_allow / MS));
+                w.violate("eligible-high-peer-not-dialed-within-one-interval", why, format!("t{k} became eligible at {} ms ({why}); the next tick is at {} ms; {} ms after it (handshake allowance) it is still not connected (dialed at that tick: {dialed}; other dials at that tick {others}, certainly in flight {in_flight}, cap {cap})", t_e / MS, tick / MS, handshake_allow / MS));
             }
         }
         w.probe_n("liveness-windows-checked", liveness_checked);
